@@ -1460,3 +1460,53 @@ def per_group_state_rule(ctx, rid, scope, min_instances=1):
                 r.fail(g.qualname, f"per-group-state:{attr}", g.file, n.lineno, f"{g.cls.name}.{g.name}", f"`{norm_text(n)[:70]}` stores a value computed from the element group `{dep}` in the single attribute self.{attr}, read back by {reader}(): {g.name} is called once per group of the mesh, so on a mesh mixing element types each group sees (and overwrites) another group's data")
             else:
                 r.ok(f"{g.qualname}: group-dependent stores are keyed")
+
+
+def mutable_default_rule(ctx, rid, scope, min_instances=1):
+    """A parameter whose DEFAULT is a mutable literal ({} / [] / set() / dict() / list()) is one object shared by every call
+    that omits the argument (and by every instance of the class).  A function that writes into it -- `p[k] = v`,
+    `p.append(...)`, `p.update(...)`, `p += [...]` -- accumulates state across calls and across objects: what one
+    simulation saved leaks into the iterations another one saves.  (Reading such a default, or rebinding the name, is
+    harmless and is not flagged.)"""
+    repo = ctx.repo
+    r = ctx.rule(rid, "no function writes into a parameter whose default value is a mutable literal (the default object is shared by all calls and all instances)", min_instances=min_instances)
+    MUT = {"append", "extend", "insert", "update", "add", "pop", "popitem", "remove", "clear", "sort", "reverse", "setdefault", "discard", "__setitem__"}
+    for f in sorted(repo.all_functions(), key=lambda f: f.qualname):
+        if not scope(f):
+            continue
+        a = f.node.args
+        pos = a.posonlyargs + a.args
+        ds = list(zip([x.arg for x in pos][len(pos) - len(a.defaults):], a.defaults)) if a.defaults else []
+        ds += [(x.arg, d) for x, d in zip(a.kwonlyargs, a.kw_defaults) if d is not None]
+        for nm, d in ds:
+            if not (isinstance(d, (ast.Dict, ast.List, ast.Set)) or (isinstance(d, ast.Call) and isinstance(d.func, ast.Name) and d.func.id in ("dict", "list", "set") and not d.args and not d.keywords)):
+                continue
+            r.instance(fn=f.qualname)
+            # the name is rebound before any write? (p = p or {} / p = list(p) / if p is None ...) -> the writes hit a fresh object
+            writes = []
+            rebinds = []
+            for n in ast.walk(f.node):
+                if isinstance(n, (ast.Assign, ast.AugAssign, ast.AnnAssign)):
+                    tg = n.targets if isinstance(n, ast.Assign) else [n.target]
+                    for t in [x for t0 in tg for x in (t0.elts if isinstance(t0, (ast.Tuple, ast.List)) else [t0])]:
+                        if isinstance(t, ast.Name) and t.id == nm:
+                            (writes if isinstance(n, ast.AugAssign) else rebinds).append(n)
+                        elif isinstance(t, (ast.Subscript, ast.Attribute)):
+                            base = t
+                            while isinstance(base, (ast.Subscript, ast.Attribute)):
+                                base = base.value
+                            if isinstance(base, ast.Name) and base.id == nm:
+                                writes.append(n)
+                elif isinstance(n, ast.Call) and isinstance(n.func, ast.Attribute) and n.func.attr in MUT and isinstance(n.func.value, ast.Name) and n.func.value.id == nm:
+                    writes.append(n)
+                elif isinstance(n, ast.Delete):
+                    for t in n.targets:
+                        if isinstance(t, ast.Subscript) and isinstance(t.value, ast.Name) and t.value.id == nm:
+                            writes.append(n)
+            first_rebind = min((x.lineno for x in rebinds), default=None)
+            live = [w for w in writes if first_rebind is None or w.lineno < first_rebind]
+            if live:
+                w = sorted(live, key=lambda x: x.lineno)[0]
+                r.fail(f.qualname, f"mutable-default:{nm}", f.file, w.lineno, f"{(f.cls.name + '.') if f.cls else ''}{f.name}", f"`{norm_text(w)[:60]}` writes into `{nm}`, whose default `{norm_text(d)}` is one object shared by every call that omits it: values written by one call (or one simulation) are still there in the next (a static simulation's saved iteration carries the velocity another, dynamic, simulation saved)")
+            else:
+                r.ok()
